@@ -14,13 +14,13 @@ import Sc3Verif.C08.AppLemmas
 namespace Sc3Verif.C08
 
 inductive Reach : Clock → Rat → Prop
-  | init (T : Tempo) (hT : T.WF) (t0 : Rat) : Reach (Clock.init T) t0
+  | init (T : Tempo) (hT : T.WF) (fresh : Bool) (t0 : Rat) : Reach (Clock.init T fresh) t0
   | step {c c' : Clock} {t : Rat} (m : Move) : Reach c t → m.ok →
       (∀ n, m.now? = some n → t ≤ n) → c.step m = some c' → Reach c' (m.time t)
 
 theorem reach_inv {c : Clock} {t : Rat} (h : Reach c t) : Inv c t := by
   induction h with
-  | init T hT t0 => exact core_init T hT t0
+  | init T hT fresh t0 => exact core_init T hT fresh t0
   | step m _ hok htn hs ih => exact inv_step ih m hok htn hs
 
 /-- MAIN (safety): every history satisfies the specification `TraceOK` of `Spec.lean`:
@@ -94,6 +94,29 @@ theorem never_early {c : Clock} {t : Rat} (h : Reach c t) {h1 h2 : List Ev} {x :
   have := traceOK_suffix (h1 := h1) (hh ▸ trace_ok h)
   obtain ⟨_, _, hle, he, hT, hna, _⟩ := this
   exact le_trans (Tempo.beats2secs_le_of_le_secs2beats hT (he ▸ hle)) hna
+
+/-- TempoClock re-reads the elapsed beats for every task of a batch (repair D-C08-3): each awake is
+justified by the tempo map in force AT THAT MOMENT and the physical time of that very step — also
+when an earlier task of the same batch changed the tempo. -/
+theorem never_early_current_tempo {c c' : Clock} {e now : Rat} {x : Entry} (hf : c.fresh = true)
+    (hpc : c.pc = .batch e) (hs : c.step (.thr now) = some c') (hx : ∃ e', c'.pc = .inAwake e' x) :
+    x.key ≤ c.tempo.secs2beats now ∧
+    ∃ h, c'.hist = Ev.awake x (c.tempo.secs2beats now) now c.tempo now (c.tempo.beats2secs x.key) :: h := by
+  simp only [Clock.step, Clock.thr, hpc, Option.some.injEq] at hs
+  subst hs
+  unfold Clock.batchStep at hx ⊢
+  split at hx
+  · obtain ⟨e', he'⟩ := hx; simp at he'
+  · rename_i y ys hq
+    split at hx
+    · rename_i hle
+      obtain ⟨e', he'⟩ := hx
+      simp only [PC.inAwake.injEq] at he'
+      obtain ⟨_, rfl⟩ := he'
+      simp only [Clock.batchE, hf, if_true] at hle
+      simp only [hq, hle, Clock.batchE, Clock.batchNow, Clock.batchTempo, hf, if_true]
+      exact ⟨trivial, _, rfl⟩
+    · obtain ⟨e', he'⟩ := hx; simp at he'
 
 /-- SystemClock (identity tempo map): awake time ≥ scheduled seconds. -/
 theorem never_early_system {x : Entry} {a : Rat} (h : Tempo.id.beats2secs x.key ≤ a) : x.key ≤ a := by
@@ -180,8 +203,8 @@ theorem on_time {c : Clock} {t : Rat} (h : Reach c t) (hrun : c.run = true) (hn 
     simp [Clock.wake, hpc, wakeOk, hdn]
   · rw [hw]; rfl
   · rw [he]; rfl
-  · rw [he]; simp [Clock.batchStep, hq, hxk]
-  · rw [he]; simp [Clock.batchStep, hq, hxk]
+  · rw [he]; cases hf : c.fresh <;> simp [Clock.batchStep, Clock.batchE, hq, hxk, hf]
+  · rw [he]; cases hf : c.fresh <;> simp [Clock.batchStep, Clock.batchE, hq, hxk, hf]
 
 /-- A numeric result re-schedules relative to the SCHEDULED time (`x.key + δ`), whatever the
 physical time is (the move does not even carry one): no drift on SystemClock / TempoClock. -/
@@ -350,7 +373,7 @@ def exampleMoves : List Move :=
    .thr (33/16), .thr (33/16),                                 -- sleeps until 3
    .wake .timeout 3, .thr 3, .thr 3, .finish .raise, .thr 3, .thr 3]
 
-example : ((Clock.init Tempo.id).runMoves exampleMoves).map (fun c => (c.pc, c.q.map (·.task))) =
+example : ((Clock.init Tempo.id false).runMoves exampleMoves).map (fun c => (c.pc, c.q.map (·.task))) =
     some (.parkedUntil 5, [0]) := by decide +kernel
 
 /-! ## AppClock (the repaired `_run` / `sched` pair, see known finding D-C08-1) -/
